@@ -1323,6 +1323,7 @@ def run(ctx):
     imported(ctx, C14.rule_K2)
     imported(ctx, C14.rule_K3)
     imported(ctx, C14.rule_K4)
+    imported(ctx, C14.rule_K6)
 
 
 # Self-test catalogue: one textual edit each, applied to a scratch copy (see selftest.py).
